@@ -1,13 +1,15 @@
 (* C03 — the AST carries every element once, in order, with exact text.
    Proved here: every line reaches the builder exactly once in order (delivery), the nesting is a
    derivation of the grammar, keywords / names / step text / comments / descriptions / doc strings
-   carry the stated text.  The composition "AST flattened = significant source lines" is decided
-   by correspondence (AST with ids and locations erased) and by the generator's intended AST:
-   partial (DESIGN 6.C03). *)
+   carry the stated text, and the composition (C03_conservation): the AST read in source order is exactly
+   the list of elements of the source's lines, each once, in order, under the parent the order implies.
+   Not in the element list: which description / doc-string body belongs to which node (text lemmas +
+   correspondence; DESIGN 6.C03). *)
 From Coq Require Import List Bool Arith NArith.
 Import ListNotations.
 Require Import Kinds Automaton PyStr Line Matcher Ast Builder Pipeline PipelineFacts Dialects
-               RefSem Nesting C02Lemmas Delivery DeliveryInst KeywordFacts BuilderFacts DocStringFacts Table.
+               RefSem Nesting C02Lemmas Delivery DeliveryInst KeywordFacts BuilderFacts DocStringFacts Table
+               BuilderSafe ConserveDefs ConserveMain.
 
 (* each physical line is delivered exactly once, in source order, then one EOF (accepted documents) *)
 Theorem C03_every_line_once : forall stop m b src c, wf_ms m ->
@@ -61,3 +63,53 @@ Theorem C03_step : forall sl kw kt text comments idc,
   = TOk (VStep (mk_step idc (tk_loc sl) kw kt text ArgNone)) (S idc).
 Proof. exact step_transform. Qed.
 Print Assumptions C03_step.
+
+(* conservation: for every accepted source there is one matched token per physical line (and the EOF), in
+   source order (`source_keys`), each matched as some kind `k` with the fields `tok_ok k` promises, such that
+   the AST, read in source order (tags, keyword line, then children: `doc_elems`), is exactly the concatenation
+   of the elements of those tokens (`tok_elems`: keyword line -> keyword as written + trimmed rest + location;
+   tag line -> one tag per item with its column; table row -> its cells), and the document's comment list is
+   exactly the comment lines.  So every feature / rule / background / scenario / examples / step / row / tag /
+   comment line of the source appears exactly once, in order, and nothing else appears. *)
+Theorem C03_conservation : forall stop m b src d m1 b1 n, wf_ms m -> parse_source stop m b src = POk d m1 b1 n ->
+  exists kts : list (kind * token),
+    map (fun kt => tkey (snd kt)) kts = source_keys src
+    /\ Forall (fun kt => tok_ok (fst kt) (snd kt)) kts
+    /\ doc_elems d = flat_map kt_elems kts
+    /\ doc_comments d = flat_map kt_comments kts.
+Proof. exact source_conservation. Qed.
+Print Assumptions C03_conservation.
+
+(* non-vacuity: a document with every kind of element is accepted; its 18 elements and 1 comment *)
+From Coq Require Import String.
+Definition c03_sample : str := s2l
+  "# note
+@a @b
+Feature: f
+  Background:
+    Given g
+      | x | y |
+      | 1 | 2 |
+  @c
+  Scenario Outline: s
+    When <x>
+    Examples:
+      | x |
+      | 1 |
+      | 2 |
+  Rule: r
+    @d
+    Scenario: t
+      Then z
+".
+Example C03_conservation_sample :
+  match new_matcher Dialects.dialects (s2l "en") with
+  | Some m =>
+    match parse_source false m (new_builder 0) c03_sample with
+    | POk d _ _ _ => List.length (doc_elems d) = 18 /\ List.length (doc_comments d) = 1
+                     /\ hd_error (doc_elems d) = Some (ETag (mk_loc 2 (Some 1)) (s2l "@a"))
+    | _ => False
+    end
+  | None => False
+  end.
+Proof. vm_compute. repeat split. Qed.
